@@ -200,7 +200,8 @@ namespace rkcommon {
     {
       std::stringstream retval;
       retval << "Any : (currently holds value of type) --> "
-             << demangle(currentValue->valueTypeID().name());
+             << (valid() ? demangle(currentValue->valueTypeID().name())
+                         : std::string("(empty)"));
       return retval.str();
     }
 
